@@ -52,7 +52,7 @@ def main():
         touched = sorted({"./" + os.path.dirname(l[6:].strip()) for l in open(os.path.join(d, "patch.diff")) if l.startswith("+++ b/") and l.strip().endswith(".go")})
         # 1. demo on HEAD
         shutil.copy(os.path.join(d, demo[0]), os.path.join(WT, dest))
-        rc, out = sh("go test %s -run TestDemo -count=1" % pkg, cwd=WT)
+        rc, out = sh("go test %s%s -run TestDemo -count=1" % ("-race " if os.environ.get("SEED_RACE") else "", pkg), cwd=WT)
         meta["demo_without_change"] = "pass" if rc == 0 else "FAIL"
         meta["ran"].append("go test %s -run TestDemo -count=1  (HEAD) -> rc %d" % (pkg, rc))
         os.remove(os.path.join(WT, dest))
@@ -64,7 +64,7 @@ def main():
         meta["ran"].append("go build ./... && go vet/test %s (patched) -> rc %d" % (" ".join(touched), rc))
         # 3. demo with patch
         shutil.copy(os.path.join(d, demo[0]), os.path.join(WT, dest))
-        rc, out = sh("go test %s -run TestDemo -count=1" % pkg, cwd=WT)
+        rc, out = sh("go test %s%s -run TestDemo -count=1" % ("-race " if os.environ.get("SEED_RACE") else "", pkg), cwd=WT)
         meta["demo_with_change"] = "fail" if rc != 0 else "PASSES (not a demonstration)"
         meta["demo_failure_excerpt"] = out[-600:] if rc != 0 else ""
         os.remove(os.path.join(WT, dest))
